@@ -85,3 +85,8 @@ func init() {
 	props["C04"] = &propInfo{engine: "B", level: "exploration", minOutcomes: 1, mustOutcomes: []string{"agrees"},
 		assume: []string{"left open (Unspecified, not compared): otherwise when the try block is left by return/break/continue, exits from inside finally, range without step and start > end, range with a step whose sign contradicts start/end, break/continue/return leaving the program", "observation is the ordered trace of a harness mark() function plus the type/detail/data of the final error"}}
 }
+
+func init() {
+	props["C06"] = &propInfo{engine: "B", level: "exploration", minOutcomes: 2, mustOutcomes: []string{"value", "error"},
+		assume: []string{"excluded as non-terminating by specification: sleep with a positive number, valid setCronTrigger/setPulseTrigger registrations; evaluation runs under a deterministic step budget (user-written endless loops end as 'budget')", "a panic on a worker goroutine kills the worker subprocess and is attributed to the case in progress through a side file written before each risky case"}}
+}
